@@ -6,6 +6,26 @@ REPO = os.environ.get('VERIF_REPO', '/repo')
 CACHE = os.path.join(VERIF, '.cache')
 
 
+import contextlib, fcntl
+
+
+@contextlib.contextmanager
+def target_lock(name):
+    """The cargo target directories under .cache are shared by every check.  Cargo's own lock covers the build only, and the name of a test
+    binary does not depend on the absolute path of the scratch copy it was built from, so two checks running at the same time could
+    execute each other's test binary.  Build + run therefore happen under one advisory lock per target directory."""
+    os.makedirs(CACHE, exist_ok=True)
+    fd = os.open(os.path.join(CACHE, name + '.lock'), os.O_CREAT | os.O_RDWR, 0o644)
+    try:
+        fcntl.flock(fd, fcntl.LOCK_EX)
+        yield
+    finally:
+        try:
+            fcntl.flock(fd, fcntl.LOCK_UN)
+        finally:
+            os.close(fd)
+
+
 def run_tests(rust_src, append_to='src/protocols/tcp/tcb.rs', crate='elvis-core', test_filter='mirx_replay', release=False, timeout=900,
               modname='mirx_replay_mod', extra_appends=None):
     """returns (stdout, returncode).  rust_src becomes a child module of the file `append_to` in a scratch copy."""
@@ -37,7 +57,8 @@ def run_tests(rust_src, append_to='src/protocols/tcp/tcb.rs', crate='elvis-core'
         if release:
             cmd.append('--release')
         cmd += [test_filter, '--', '--nocapture', '--test-threads', '1']
-        p = subprocess.run(['timeout', '-k', '10', str(timeout)] + cmd, cwd=dst, env=env, capture_output=True, text=True)
+        with target_lock('native-target'):
+            p = subprocess.run(['timeout', '-k', '10', str(timeout)] + cmd, cwd=dst, env=env, capture_output=True, text=True)
         return p.stdout + '\n' + p.stderr, p.returncode
     finally:
         shutil.rmtree(scratch, ignore_errors=True)
@@ -102,7 +123,8 @@ def run_shim_tests(rust_src, module='ip_generator.rs', test_filter='mirx_replay'
         env['CARGO_TARGET_DIR'] = os.path.join(CACHE, 'native-target')
         env['RUSTFLAGS'] = env.get('RUSTFLAGS', '') + ' -Awarnings'
         cmd = ['cargo', 'test', '--offline', '--lib', test_filter, '--', '--nocapture', '--test-threads', '1']
-        p = subprocess.run(['timeout', '-k', '10', str(timeout)] + cmd, cwd=d, env=env, capture_output=True, text=True)
+        with target_lock('native-target'):
+            p = subprocess.run(['timeout', '-k', '10', str(timeout)] + cmd, cwd=d, env=env, capture_output=True, text=True)
         return p.stdout + '\n' + p.stderr, p.returncode
     finally:
         shutil.rmtree(scratch, ignore_errors=True)
